@@ -3641,6 +3641,16 @@ void space_text()
                           __func__, __LINE__, pc->Text(), next->Text());
                   pc->SetFlagBits(PCF_FORCE_SPACE);
                }
+               else if (  (  pc->Is(CT_NUMBER)
+                          || pc->Is(CT_NUMBER_FP))
+                       && next->Is(CT_ELLIPSIS)
+                       && !language_is_set(lang_flag_e::LANG_D))
+               {
+                  // a number swallows a following '...': '0 ... 31' is not '0...31'
+                  LOG_FMT(LSPACE, "%s(%d): number before '%s' needs a space\n",
+                          __func__, __LINE__, next->Text());
+                  pc->SetFlagBits(PCF_FORCE_SPACE);
+               }
                else if (  pc->GetStr()[pc->Len() - 1] == '/'
                        && (  next->GetStr()[0] == '*'
                           || next->GetStr()[0] == '/'))
